@@ -452,6 +452,30 @@ def check(chk):
     ok = bool(st) and bool(up) and all(cfg.dominates(s_.id, u_.id) for s_ in st for u_ in up)
     chk.ob("SYNC-1", "a full switch report is stored and applied before _process_sa returns", ok, f.where(), construct=f.ident,
            text="SA applied inline")
+    # BITS-2: the full report is unpacked completely: 8 bits per byte, number = byte offset * 8 + bit, state = that bit
+    from sa.helpers import exact_selection
+    bl = [h for h in cfg.nodes if h.kind == "loop" and isinstance(h.ast.iter, ast.Call) and call_attr(h.ast.iter) == "range"]
+    by = [h for h in cfg.nodes if h.kind == "loop" and "fromhex" in src(h.ast.iter)]
+    chk.need(bl and by, "BITS-2", "_process_sa unpacks the report byte by byte, bit by bit", f)
+    chk.ob("BITS-2", "_process_sa looks at all 8 bits of every byte of the report", [const_value(a) for a in bl[0].ast.iter.args] == [8] and
+           src(by[0].ast.iter).replace(" ", "") == "enumerate(bytearray.fromhex(raw_switch_data))", f.where(bl[0].ast), construct=f.ident, text="SA bit range")
+    bit = src(bl[0].ast.target)
+    off = src(by[0].ast.target.elts[0]) if isinstance(by[0].ast.target, ast.Tuple) else "?"
+    byt = src(by[0].ast.target.elts[1]) if isinstance(by[0].ast.target, ast.Tuple) else "?"
+    nums = [x for x in ast.walk(f.node) if isinstance(x, ast.Assign) and src(x.targets[0]) == "num"]
+    ok = len(nums) == 1 and src(nums[0].value).replace(" ", "").replace("(", "").replace(")", "") in ("%s*8+%s" % (off, bit), "8*%s+%s" % (off, bit))
+    chk.ob("BITS-2", "the switch number of a bit is byte offset * 8 + bit index", ok, f.where(), construct=f.ident, text="SA switch number")
+    sts = [n for n in cfg.nodes if n.kind == "stmt" and isinstance(n.ast, ast.Assign) and src(n.ast.targets[0]) == "hw_states[num]"]
+    chk.ob("BITS-2", "each bit is recorded as 1 or 0", sorted(const_value(n.ast.value) for n in sts if const_value(n.ast.value) is not None) == [0, 1] and len(sts) == 2,
+           f.where(), construct=f.ident, text="SA states")
+    for n in sts:
+        v = const_value(n.ast.value)
+        tests = ("%s & 2 ** %s" % (byt, bit), "%s & (2 ** %s)" % (byt, bit), "%s & 1 << %s" % (byt, bit))
+        got = exact_sel_text(cfg, n, bl[0])
+        ok = len(got) == 1 and any(k.replace("(", "").replace(")", "") == tests[0].replace("(", "").replace(")", "") or k == tests[2] for k, _ in got) and \
+            all(val is (v == 1) for _, val in got)
+        chk.ob("BITS-2", "a switch is recorded %s exactly when its bit is %s" % ("active" if v else "inactive", "set" if v else "clear"), ok, f.where(n.ast),
+               detail=str(sorted(got)), construct=f.ident, text="SA bit %s" % v)
     for nm, stt in (("_process_switch_open", 0), ("_process_switch_closed", 1)):
         h = repo.func(NN, "FastNetNeuronCommunicator." + nm)
         cs = [c for c in h.calls() if call_attr(c) == "process_switch_by_num"]
@@ -529,9 +553,22 @@ def _opp_payload(chk, h, hn, N):
         chk.ob("BITS-1", "%s: a cleared bit is reported active (1), a set bit inactive (0)" % hn, bit_clear is not None and st is not None and
                const_value(st) == want_state, h.where(c), detail="state=%s under %s" % (src(st) if st is not None else None, sorted(g.items())),
                construct=h.ident, text="bit polarity")
+        # sufficiency: *every* changed bit is reported -- nothing but "bit changed" and the bit's value select the report
+        lh = [x for x in hc.nodes if x.kind == "loop" and x.ast is lp]
+        if lh:
+            from sa.helpers import inloop_guards, positive
+            got = positive(inloop_guards(hc, n.id, lh[0].id))
+            extra = {(k, v) for k, v in got if not ("curr_bit & changes" in k or ("curr_bit & %s" % state_name) in k)}
+            chk.ob("BITS-1", "%s: every changed bit is reported (no further condition)" % hn, not extra and len(got) == 2, h.where(c),
+                   detail="selected by %s" % sorted(got), construct=h.ident, text="changed bit reported exactly")
         num = kwarg(c, "num")
         chk.ob("BITS-1", "%s: the switch number ends in the bit index" % hn, num is not None and src(num).replace(" ", "").endswith("str(%s)" % idx),
                h.where(c), detail=src(num) if num is not None else "", construct=h.ident, text="switch number")
+
+
+def exact_sel_text(cfg, node, head):
+    from sa.helpers import inloop_guards, positive
+    return positive(inloop_guards(cfg, node.id, head.id))
 
 
 def _callee_awaits_response(repo, cls, wait_for_calls):
@@ -607,6 +644,10 @@ def battery():
         M("OPP matrix frames never dispatched", OS_, "                        self.platform.process_received_message(self.chain_serial, self.part_msg[:11])\n", "", "PAIR-15"),
         M("FAST delimiter search skips the carried-over bytes", FB, "            pos = self.received_msg.find(b'\\r')", "            pos = self.received_msg.find(b'\\r', len(msg))", "PAIR-15"),
         M("twin: unrelated statement before the append", FB, "        self.received_msg += msg\n", "        n_new = len(msg)\n        self.received_msg += msg\n", None),
+        M("OPP changes of some inputs are not reported", OP, "                    if (curr_bit & changes) != 0:\n                        if (curr_bit & new_state) == 0:\n                            self.machine.switch_controller.process_switch_by_num(\n                                state=1,\n                                num=opp_inp.chain_serial + '-' + opp_inp.card_num + '-' + str(index),", "                    if (curr_bit & changes) != 0 and index < 24:\n                        if (curr_bit & new_state) == 0:\n                            self.machine.switch_controller.process_switch_by_num(\n                                state=1,\n                                num=opp_inp.chain_serial + '-' + opp_inp.card_num + '-' + str(index),", "BITS-1"),
+        M("FAST full report: bit numbering off by one byte", NN, "                num = (offset * 8) + i", "                num = ((offset + 1) * 8) + i", "BITS-2"),
+        M("FAST full report: only seven bits per byte", NN, "            for i in range(8):\n\n                num = (offset * 8) + i", "            for i in range(7):\n\n                num = (offset * 8) + i", "BITS-2"),
+        M("FAST full report: polarity inverted", NN, "                if byte & (2**i):\n                    hw_states[num] = 1\n                else:\n                    hw_states[num] = 0", "                if byte & (2**i):\n                    hw_states[num] = 0\n                else:\n                    hw_states[num] = 1", "BITS-2"),
     ]
 
 
